@@ -24,7 +24,8 @@ Inductive pstmt :=
   | PSFor (x : nat) (a b : pexpr) (body : pstmt)      (* for x in range(a, b); range(n) = range(0, n) *)
   | PSBreak
   | PSContinue
-  | PSRet (e : pexpr).
+  | PSRet (e : pexpr)
+  | PSTuple (xs : list nat) (es : list pexpr).        (* x1, ..., xn = e1, ..., en *)
 
 Inductive pout := PNormal (env : list Z) | PBrk (env : list Z) | PCnt (env : list Z) | PRet (v : Z).
 Definition is_normal (o : pout) : bool := match o with PNormal _ => true | _ => false end.
@@ -37,6 +38,21 @@ Fixpoint pset (x : nat) (v : Z) (env : list Z) : option (list Z) :=
   | O, _ :: r => Some (v :: r)
   | S x', y :: r => match pset x' v r with Some r' => Some (y :: r') | None => None end
   | _, [] => None
+  end.
+
+(* tuple assignment: all right-hand values in the OLD store, left to right; then the targets are
+   bound left to right (a repeated target keeps the last value) *)
+Fixpoint eval64_list (env : list Z) (es : list pexpr) : option (list Z) :=
+  match es with
+  | [] => Some []
+  | e :: r => match eval64 env e, eval64_list env r with
+              | Some v, Some vs => Some (v :: vs) | _, _ => None end
+  end.
+Fixpoint pset_list (xs : list nat) (vs : list Z) (env : list Z) : option (list Z) :=
+  match xs, vs with
+  | [], [] => Some env
+  | x :: xr, v :: vr => match pset x v env with Some e1 => pset_list xr vr e1 | None => None end
+  | _, _ => None
   end.
 
 Inductive pexec : pstmt -> list Z -> pout -> Prop :=
@@ -67,6 +83,9 @@ Inductive pexec : pstmt -> list Z -> pout -> Prop :=
   | E_break env : pexec PSBreak env (PBrk env)
   | E_continue env : pexec PSContinue env (PCnt env)
   | E_ret env e v : eval64 env e = Some v -> pexec (PSRet e) env (PRet v)
+  | E_tuple env xs es vs env' :
+      eval64_list env es = Some vs -> pset_list xs vs env = Some env' ->
+      pexec (PSTuple xs es) env (PNormal env')
 (* the remaining values of the range *)
 with pfor : nat -> pstmt -> list Z -> list Z -> pout -> Prop :=
   | F_done x body env : pfor x body [] env (PNormal env)
